@@ -235,7 +235,23 @@ GATE_DIFFERENT = [
     ('class-level default None of an attribute tested for emptiness',
      'class K:\n    rows = None\n    def load(self):\n        self.rows = []\n    def empty(self):\n        return len(self.rows) == 0\n',
      'class K:\n    rows = None\n    def load(self):\n        self.rows = []\n    def empty(self):\n        return not self.rows\n', 'K.empty'),
+    ('own method changes the attribute that was read before the call',
+     'class R:\n    def _bump(self):\n        self._skip()\n    def _skip(self):\n        self.pos += 4\n    def f(self):\n        self._bump()\n        return self.pos\n',
+     'class R:\n    def _bump(self):\n        self._skip()\n    def _skip(self):\n        self.pos += 4\n    def f(self):\n        t = self.pos\n        self._bump()\n        return t\n', 'R.f'),
+    ('own method hands self on: effect unknown',
+     'class R:\n    def _bump(self):\n        advance(self)\n    def f(self):\n        self._bump()\n        return self.pos\n',
+     'class R:\n    def _bump(self):\n        advance(self)\n    def f(self):\n        t = self.pos\n        self._bump()\n        return t\n', 'R.f'),
+    ('own method that a subclass overrides',
+     'class R:\n    def _bump(self):\n        self.n += 1\n    def f(self):\n        self._bump()\n        return self.pos\nclass S(R):\n    def _bump(self):\n        self.pos += 1\n',
+     'class R:\n    def _bump(self):\n        self.n += 1\n    def f(self):\n        t = self.pos\n        self._bump()\n        return t\nclass S(R):\n    def _bump(self):\n        self.pos += 1\n', 'R.f'),
     ('async def against def', 'class K:\n    async def f(self):\n        return 7\n', 'class K:\n    def f(self):\n        return 7\n', 'K.f'),
+]
+
+
+GATE_SAME = [
+    ('own method that leaves the attribute alone',
+     'class R:\n    def _bump(self):\n        self.n += 1\n    def f(self):\n        self._bump()\n        return self.pos\n',
+     'class R:\n    def _bump(self):\n        self.n += 1\n    def f(self):\n        t = self.pos\n        self._bump()\n        return t\n', 'R.f'),
 ]
 
 
@@ -269,6 +285,9 @@ def run():
         for what, cur, ref, q in GATE_DIFFERENT:
             if q in gate.apply(ast.parse(cur), ast.parse(ref), lambda t: None):
                 bad.append(f'gate takes as equivalent: {what}')
+        for what, cur, ref, q in GATE_SAME:
+            if q not in gate.apply(ast.parse(cur), ast.parse(ref), lambda t: None):
+                bad.append(f'gate does not recognise: {what}')
         # the red-team corpus (DESIGN 8.9): pairs with a demonstrated behavioural difference that were once identified
         import importlib.util
         import os
